@@ -19,6 +19,7 @@ API even in the limited fashion stated above.
     aiocoap.util.*
 """
 
+import re
 import urllib.parse
 from warnings import warn
 import enum
@@ -95,6 +96,9 @@ class ExtensibleIntEnum(enum.IntEnum, metaclass=ExtensibleEnumMeta):
             return self
 
 
+_bracketed_hostport = re.compile(r"\[[^\[\]]*\](:[0-9]*)?")
+
+
 def hostportjoin(host, port=None):
     """Join a host and optionally port into a hostinfo-style host:port
     string
@@ -139,6 +143,11 @@ def hostportsplit(hostport):
     ('::1%eth0', 56830)
     """
 
+    if ("[" in hostport or "]" in hostport) and not _bracketed_hostport.fullmatch(
+        hostport
+    ):
+        # urllib would silently ignore any text around the brackets
+        raise ValueError("Invalid IP literal in network location")
     pseudoparsed = urllib.parse.SplitResult(None, hostport, None, None, None)
     try:
         return pseudoparsed.hostname, pseudoparsed.port
